@@ -963,6 +963,22 @@ func (k Keeper) FilterServiceProviders(
 	return newProviders, totalPrices, "", nil
 }
 
+// GetTotalServiceFees returns what the consumer owes for one request to each of the given providers:
+// the sum of the fees the requests will record, i.e. the providers' prices with the discounts in force
+func (k Keeper) GetTotalServiceFees(
+	ctx sdk.Context,
+	serviceName string,
+	providers []sdk.AccAddress,
+	consumer sdk.AccAddress,
+) (total sdk.Coins) {
+	for _, provider := range providers {
+		if binding, found := k.GetServiceBinding(ctx, serviceName, provider); found {
+			total = total.Add(k.GetPrice(ctx, consumer, binding)...)
+		}
+	}
+	return total
+}
+
 // DeductServiceFees deducts the given service fees from the specified consumer
 func (k Keeper) DeductServiceFees(
 	ctx sdk.Context,
